@@ -482,8 +482,8 @@ def _run_target(t, binding, seed):
             if d[0] == "i":
                 shape.append(d[1])
             elif d[0] == "s":
-                if d[1] not in env:
-                    return "unsupported-input", None, None
+                if d[1] not in env or not _plain_symbol(d[1]):
+                    return "unsupported-input", None, None      # e.g. an expression as the extent of an input
                 shape.append(env[d[1]])
             else:
                 shape.append(2)
@@ -1089,7 +1089,11 @@ def run(ctx):
         "ONNX operator shape rules as transcribed in Annot.rule_on (elementwise unary, multidirectional broadcast, Transpose, "
         "Reshape with constant positive target) - cross-checked by the run-time validation of the same exports",
     ]
+    timing = {}
+    t_ = time.time()
     common.build_props(ctx, "C08", GEN_UNITS)
+    timing["build_props_s"] = round(time.time() - t_, 1)
+    t_ = time.time()
     evals = 0
     try:
         n1, distinct = tie_translated(ctx)
@@ -1111,6 +1115,8 @@ def run(ctx):
         flush_cases(ctx)
     except Exception:  # noqa
         ctx.oblige("tie:coq-evaluation", False, "tie", traceback.format_exc()[-1500:])
+    timing["ties_s"] = round(time.time() - t_, 1)
+    ctx.coverage["timing"] = timing
     ctx.coverage["refresh_model_in_force"] = "unchanged tree: one-element constants of any rank are skipped" if skip else \
         "repaired: one-element constants take part in the broadcast"
 
